@@ -102,8 +102,10 @@ def check_deck(deck, seed, flags=(), lattice=(), n_points=60, want=('C01', 'C08'
                 continue
             merged = [k for k in f.surfaces if k != sid and _same_locus(f, k, deck, sid)]
             if sid not in bounding:
+                # known finding F6, plain case: the flagged surface is used by no converted cell at all (that some
+                # other written surface happens to have the same locus is irrelevant)
                 bc_fail('entry-on-a-flagged-surface-bounding-no-converted-cell',
-                     f'surface {s.bc}{sid} is used by no cell of non-zero importance; the entry designates {sid}, '
+                     f'surface {s.bc}{sid} (used by no cell of non-zero importance): the entry designates {sid}, '
                      'which is not a SURF of the file')
             elif merged and min(merged) < sid:
                 # known finding F5: the flagged card duplicates a surface with a SMALLER number, which is the one kept
@@ -114,8 +116,13 @@ def check_deck(deck, seed, flags=(), lattice=(), n_points=60, want=('C01', 'C08'
                 bc_fail('flagged-surface-with-the-smallest-number-of-its-duplicates-was-removed',
                      f'surface {s.bc}{sid} was merged into the larger number(s) {merged[:2]}; the entry still designates {sid}')
             else:
-                bc_fail('entry-designates-a-surface-that-is-not-written',
-                     f'surface {s.bc}{sid}: written surfaces {sorted(f.surfaces)[:12]}')
+                # known finding F6: no written volume uses a surface with this locus (the flagged surface is unused,
+                # used only by cells that are not converted, or was simplified away, e.g. `-3 3`), yet the writer
+                # emits an entry for every flagged card.  (A surface that is needed but not written would show up as a
+                # structural / membership failure of C08 / C01, not here.)
+                how = 'referenced by a converted cell but simplified away' if sid in bounding else 'used by no cell of non-zero importance'
+                bc_fail('entry-on-a-flagged-surface-bounding-no-converted-cell',
+                     f'surface {s.bc}{sid} ({how}): the entry designates {sid}, which is not a SURF of the file')
         for sid, kinds in entries.items():
             if sid in flagged:
                 continue
@@ -228,21 +235,25 @@ def _collect_surfaces(e, out, deck=None, seen=None):
             _collect_surfaces(a, out, deck, seen)
 
 
-def _same_locus(f, t4_id, deck, mcnp_id, n=40):
-    """Does T4 surface t4_id vanish / change sign exactly where MCNP surface mcnp_id does (sampled)?"""
+def _same_locus(f, t4_id, deck, mcnp_id, n=600):
+    """Does T4 surface t4_id vanish / change sign exactly where MCNP surface mcnp_id does (sampled: the senses must
+    agree -- or be opposite -- at every one of n points; small bodies have few interior points, so many are drawn)?"""
     import random
     rng = random.Random(t4_id * 7919 + mcnp_id)
-    agree = 0
+    agree = disagree = 0
     for _ in range(n):
-        pt = (rng.uniform(-3, 3), rng.uniform(-3, 3), rng.uniform(-3, 3))
+        pt = (rng.uniform(-2.6, 2.6), rng.uniform(-2.6, 2.6), rng.uniform(-2.6, 2.6))
         neg = deck.sense_neg(mcnp_id, pt)
         if neg is None:
             continue
         v = f.surf_value(t4_id, pt)
-        if abs(v) < 1e-9:
+        if abs(v) < 1e-7:
             continue
-        agree += 1 if (v < 0) == neg else -1
-    return abs(agree) >= n * 0.9
+        if (v < 0) == neg:
+            agree += 1
+        else:
+            disagree += 1
+    return agree + disagree > n // 2 and (disagree == 0 or agree == 0)
 
 
 _SYMBOLS = ('H HE LI BE B C N O F NE NA MG AL SI P S CL AR K CA SC TI V CR MN FE CO NI CU ZN GA GE AS SE BR KR RB SR Y '
